@@ -601,7 +601,13 @@ pub fn usable_clusters(u: &Usable, lay: &Layout) -> Vec<u32> {
     for c in 2..2 + lo {
         v.push(c);
     }
-    let mid_start = eps.saturating_sub(u.mid as u32 / 2).max(2 + lo);
+    // the middle run straddles a FAT sector boundary, or - on FAT32 volumes that are
+    // large enough - the 16-bit boundary of cluster numbers (65536)
+    let mid_start = if lay.fat32 && u.frag_seed % 2 == 1 && n > 65_600 + u.mid as u32 {
+        65_536 - (u.mid as u32 / 2).min(65_000)
+    } else {
+        eps.saturating_sub(u.mid as u32 / 2).max(2 + lo)
+    };
     for c in mid_start..(mid_start + u.mid as u32).min(n + 2) {
         v.push(c);
     }
@@ -844,13 +850,14 @@ pub fn mkfs(spec: &DiskSpec) -> (Image, Vec<PVol>) {
                 fill: Fill::Stale { clusters: lay.clusters },
             });
         }
-        // reserved sectors other than boot/fsinfo get a recognisable pattern
-        for r in 1..lay.reserved {
-            let mut b = [0u8; 512];
-            for (i, x) in b.iter_mut().enumerate() {
-                *x = 0xC0 | ((i as u8 ^ r as u8) & 0x3F);
-            }
-            img.wr(lay.part_start + r, &b);
+        // reserved sectors other than boot/fsinfo get a recognisable pattern (as a
+        // background region, so that thousands of reserved sectors cost nothing)
+        if lay.reserved > 1 {
+            img.regions.push(Region {
+                start: lay.part_start + 1,
+                end: lay.part_start + lay.reserved,
+                fill: Fill::Foreign(0xC3),
+            });
         }
         // allocation order
         let mut order = usable_clusters(&v.usable, &lay);
@@ -983,7 +990,9 @@ pub fn mkfs(spec: &DiskSpec) -> (Image, Vec<PVol>) {
         drop(ctx);
         write_fat(&mut img, &lay, &fatmap, v.usable.all, g.hi_nibbles && lay.fat32, v.usable.frag_seed);
         // boot sector(s)
-        let label: [u8; 11] = if g.label { *b"VERIF LABEL" } else { *b"NO NAME    " };
+        // without a label the boot-sector field is blank, which makes the crate look for a
+        // label entry in the root directory instead
+        let label: [u8; 11] = if g.label { *b"VERIF LABEL" } else { *b"           " };
         let bs = boot_sector(g, &lay, &label);
         img.wr(lay.part_start, &bs);
         if lay.fat32 {
